@@ -2,9 +2,10 @@
 import re, os
 from tools import cxx2c
 from tools.cxx2c import Lower, Unsupported, kids, qt, qt_sugar, strip, strip_parens, callee_name, norm_type
+from tools.cxx2c import REPO as _REPO
 
 NAME = 'UPD'
-SRC = '/repo/src/bloch/update/update_manager.cpp'
+SRC = _REPO + '/src/bloch/update/update_manager.cpp'
 FUNCS = ['parseSemVer', 'compareSemVer', 'changeLabel', 'hasLatest', 'hasExpired', 'shouldSkipChecks', 'maybePrintNotice', 'checkForUpdatesIfDue', 'parseChecksum']
 REGIONS = ['performSelfUpdate']
 AST_FILTER = FUNCS + REGIONS + ['SemVer', 'UpdateCache', 'kUpdateWindow']
